@@ -99,7 +99,7 @@ func r161(c *Ctx) {
 			if isLoadOfField(ce.cond, tlsEn) && !ce.taken {
 				notEnabled = true
 			}
-			if cm, ok := asCmp(ce.cond, ce.taken); ok && cm.op == token.NEQ && isNilConst(cm.y) {
+			if cm, ok := ce.asCmp(); ok && cm.op == token.NEQ && isNilConst(cm.y) {
 				if f, _, ok := fieldLoad(cm.x); ok && f.Name() == "TLS" {
 					overTLS = true
 				}
@@ -205,7 +205,7 @@ func r163(c *Ctx) {
 				_, cmNN := nilKnowledge(ret, matchFieldLoad(cmF))
 				nameSet := false
 				for _, ce := range dominatingConds(ret.Block()) {
-					if cm, ok := asCmp(ce.cond, ce.taken); ok && cm.op == token.NEQ {
+					if cm, ok := ce.asCmp(); ok && cm.op == token.NEQ {
 						if s, ok := constString(cm.y); ok && s == "" {
 							nameSet = true
 						}
@@ -347,7 +347,7 @@ func r164(c *Ctx) {
 	for _, cs := range callsTo(ccm, nsc) {
 		var cert, key bool
 		for _, ce := range dominatingConds(cs.instr.Block()) {
-			if cm, ok := asCmp(ce.cond, ce.taken); ok && cm.op == token.NEQ {
+			if cm, ok := ce.asCmp(); ok && cm.op == token.NEQ {
 				if s, ok := constString(cm.y); ok && s == "" {
 					if f, _, ok := fieldLoad(cm.x); ok && f.Name() == "TLSCertificatePath" {
 						cert = true
